@@ -286,7 +286,7 @@ def val_strategy(n_nodes, n_vars, depth=2, arrays=True, statics=True):
 
 
 def graph_strategy(max_nodes=6, max_vars=5, max_attrs=3, arrays=True,
-                   statics=True, var_shapes=([], [2], [2, 3]), hooks=False):
+                   statics=True, var_shapes=([], [2], [2, 3]), hooks=True):
   def make(nn_, nv):
     var = st.fixed_dictionaries({
         'type': st.sampled_from(sorted(VAR_CLS)),
